@@ -135,8 +135,15 @@ func checkCase(c Case, tol pgen.Tol) (f *evid.Failure, tolerated map[string]int)
 	if f != nil {
 		return f, nil
 	}
-	if f := compare(got, "Unmarshal(Marshal(v)) == v"); f != nil {
-		return f, nil
+	// A top-level pointer (chain) whose target encodes to zero bytes: the
+	// empty input is documented to decode to the zero value ("An empty input
+	// is a valid protobuf message with all fields set to the zero-value"), so
+	// the pointer itself cannot come back; the comparison is vacuous.
+	topEmptyPtr := len(b) == 0 && c.Type.K == pgen.KPtr && !want.IsNil() && got.Elem().IsNil()
+	if !topEmptyPtr {
+		if f := compare(got, "Unmarshal(Marshal(v)) == v"); f != nil {
+			return f, nil
+		}
 	}
 
 	// determinism
@@ -367,7 +374,26 @@ func chainDepth(d *pgen.TypeDesc) int {
 }
 
 func typeLabels(d *pgen.TypeDesc, set map[string]bool) {
+	if l := pgen.TopShapeLabel(d); l != "" {
+		set[l] = true
+	}
+	if d.K == pgen.KPtr {
+		n := 0
+		for x := d; x.K == pgen.KPtr; x = x.Elem {
+			n++
+		}
+		b := pgen.StripPtr(d)
+		switch {
+		case b.Impl() != "":
+			set[fmt.Sprintf("top.ptr%d.impl.%s", n, b.Impl())] = true
+		case b.K == pgen.KNamed:
+			set[fmt.Sprintf("top.ptr%d.corpus", n)] = true
+		default:
+			set[fmt.Sprintf("top.ptr%d.other", n)] = true
+		}
+	}
 	switch {
+	case d.K == pgen.KPtr:
 	case d.Impl() != "":
 		set["top.impl."+d.Impl()] = true
 	case d.K == pgen.KNamed:
@@ -710,7 +736,7 @@ func witnessCases() map[string]Case {
 		// struct{P *PTree}{&PTree{V: 1, Kids: []*PTree{{V: 2}}}}: the pointer codec of the recursive type is requested before its struct
 		// codec, Kids captured wire type 0 and Unmarshal rejected Marshal's output
 		"recursive-type-first-reached-through-pointer": {Type: st(fld(pt(nm("PTree")))), Value: rs(rs(rs(ru(1), rs(rs(rs(ru(2), pgen.Recipe{Nil: true}))))))},
-		pgen.ClassModCollide: {Type: st(pgen.FieldDesc{Num: 1, Wire: "varint", T: lf(pgen.KInt)}, pgen.FieldDesc{Num: 65537, Wire: "varint", T: lf(pgen.KInt)}), Value: rs(ru(3), ru(4))},
+		pgen.ClassModCollide:                           {Type: st(pgen.FieldDesc{Num: 1, Wire: "varint", T: lf(pgen.KInt)}, pgen.FieldDesc{Num: 65537, Wire: "varint", T: lf(pgen.KInt)}), Value: rs(ru(3), ru(4))},
 	}
 }
 
